@@ -1,4 +1,5 @@
 import Compute.Props.C10Deep
+import Compute.Props.Rounding8
 /-
 C10 — repairs after the independent review (out/review/review-b.md, findings C10-B1, B3, B4, B5, C4).
 
@@ -410,6 +411,103 @@ example (h : AdamHP ℝ) (θ : List ℝ) (hr : adam divProg h [1, 2] 1 = some θ
       exact divProg_dom)
     hr
 
+/-- the SGD theorem with its hypothesis along the run instantiated: one step (plain, momentum or Nesterov —
+the velocity is still zero, so the look-ahead point is the start) on `p0 / p1` from `(1, 2)` -/
+example (h : SgdHP ℝ) (θ : List ℝ) (hr : sgd divProg h [1, 2] 1 = some θ) :
+    (iter (pubSgdStep (gradTrue divProg) h) (sgdInit [1, 2])
+      (stopIdx (pubSgdStep (gradTrue divProg) h) sgdStopped (sgdInit [1, 2]) 1)).map (·.θ) = some θ :=
+  sgd_follows_published_rule_on_run divProg h [1, 2] 1 θ divProg_ncdv divProg_powi
+    (fun j s hj hs => by
+      have : j = 0 := by omega
+      subst this
+      simp only [iter, Option.some.injEq] at hs
+      subst hs
+      refine ⟨divProg_dom, ?_⟩
+      simp [InDomain, DomRun, domStep, divProg, fStep, vec, lookPoint, sgdInit])
+    hr
+
 end opt
+
+/-! ## LM on models linear in the parameters: an end-to-end statement about `lm` (review 2, C10-A1 repaired by
+`Cv.Rounding8.LMrun.tapeEval_linModel`) -/
+section linear
+open Cv.Rounding8.LMrun Cv.Rounding7.LM
+variable [Inhabited ℝ] [BEq ℝ] [LawfulBEq ℝ] [Transc ℝ] [FMax ℝ]
+
+/-- **LM on the tape evaluator of the source, RPN model linear in its `p` parameters, exact arithmetic: a
+conditional contraction.**  If `f(θ,x) = Σⱼ cf x j·θⱼ` (value and derivative row of the program, for every parameter
+list of length `p`), no column of the design matrix vanishes, `tau > 0`, `D ≤ κ·JᵀJ` (`κ` a hypothesis: full column
+rank) and `θs` is a least-squares solution, then whatever `lm` returns after budget `k` is the parameter vector of a
+loop state `s` with: either a stop test fired (`s.stop`), or
+`‖θ − θs‖²_A ≤ (Λκ/(1+Λκ))^k ‖θ₀ − θs‖²_A` with `Λ = max(μ₀, 2)`.  This is NOT "reaches the least-squares
+solution": it is a contraction bound unless a stop test fires (then `stop_eps1` / `stop_eps2` bound the gradient). -/
+theorem lm_linear_contraction (prog : List (Op ℝ)) (xs ys : List ℝ) (hlen : xs.length = ys.length)
+    (hn : 0 < xs.length) (p : ℕ) (hp : 0 < p) (cf : ℝ → ℕ → ℝ)
+    (hval : ∀ (x : ℝ) (θ : List ℝ), θ.length = p → valOf prog θ x = ∑ j ∈ range p, cf x j * nth θ j)
+    (hrow : ∀ (x : ℝ) (θ : List ℝ), θ.length = p → rowOf prog θ x = (List.range p).map (cf x))
+    (hcol : ∀ i, i < p → ∃ k, k < xs.length ∧ cf (nth xs k) i ≠ 0)
+    (habs : ∀ x : ℝ, Transc.abs x = |x|) (hF : FMaxLaw ℝ)
+    (h : LMHP ℝ) (hτ : 0 < h.tau) (θ0 : List ℝ) (hθ : θ0.length = p) (k : ℕ) (θ cov : List ℝ)
+    (κ : ℝ) (hκ : 0 ≤ κ)
+    (hκD : ∀ x : ℕ → ℝ, bD (Jm (linJac cf p xs) p) xs.length p x x ≤
+      κ * bA (Jm (linJac cf p xs) p) xs.length p x x)
+    (θs : ℕ → ℝ) (hs : IsLS (Jm (linJac cf p xs) p) xs.length p (fun k => nth ys k) θs)
+    (hr : lm prog h θ0 xs ys k = some (θ, cov)) :
+    ∃ (s0 s : LMSt (TapeSt ℝ) ℝ), lmStart (tapeEval prog xs ys) h θ0 = some s0 ∧
+      lmLoop (tapeEval prog xs ys) h k s0 = some s ∧ θ = (tapeEval prog xs ys).vals s.tp ∧
+      (s.stop = true ∨ errA (linJac cf p xs) xs.length p θs θ ≤
+        ((max s0.mu 2) * κ / (1 + (max s0.mu 2) * κ)) ^ k * errA (linJac cf p xs) xs.length p θs θ0) := by
+  have L := tapeEval_linModel prog xs ys hlen hn p cf hval hrow hcol habs hF
+  unfold lm at hr
+  split at hr
+  · exact absurd hr (by simp)
+  · unfold lmG at hr
+    split at hr
+    · exact absurd hr (by simp)
+    next s0 hs0 =>
+      split at hr
+      · exact absurd hr (by simp)
+      next s hl =>
+        have hI := linInv_start L h hτ hp θ0 hθ s0 hs0
+        obtain ⟨_, _, hc⟩ := lmLoop_linear L h (max s0.mu 2) κ (le_max_right _ _) hκ hκD θs hs k s0 s hI hl
+        obtain ⟨f1, _⟩ := lmFinish_out _ s θ cov hr
+        obtain ⟨_, _, hv0, _⟩ := invW_start _ WFSt _ _ L.laws h θ0 s0 hs0
+        refine ⟨s0, s, hs0, hl, f1, ?_⟩
+        rcases hc with hc | hc
+        · exact Or.inl hc
+        · right; rw [f1]; rw [hv0] at hc; exact hc
+
+end linear
+
+section linex
+open Cv.Rounding8.LMrun Cv.Rounding7.LM
+attribute [local instance] Examples.instBEqReal Examples.instLawfulBEqReal Examples.instTranscReal
+  Examples.instFMaxReal
+
+/-- all structural hypotheses of `lm_linear_contraction` instantiated for the straight line `p0 + p1·x` on the
+points `x = 0, 1, 2` (`κ` and the least-squares solution remain the quantified data of the statement) -/
+example (h : LMHP ℝ) (hτ : 0 < h.tau) (θ0 : List ℝ) (hθ : θ0.length = 2) (k : ℕ) (θ cov : List ℝ)
+    (κ : ℝ) (hκ : 0 ≤ κ)
+    (hκD : ∀ x : ℕ → ℝ, bD (Jm (linJac Examples.cf01 2 [0, 1, 2]) 2) 3 2 x x ≤
+      κ * bA (Jm (linJac Examples.cf01 2 [0, 1, 2]) 2) 3 2 x x)
+    (θs : ℕ → ℝ) (hs : IsLS (Jm (linJac Examples.cf01 2 [0, 1, 2]) 2) 3 2 (fun k => nth ([1, 3, 5] : List ℝ) k) θs)
+    (hr : lm Examples.prog01 h θ0 [0, 1, 2] [1, 3, 5] k = some (θ, cov)) :
+    ∃ (s0 s : LMSt (TapeSt ℝ) ℝ), lmStart (tapeEval Examples.prog01 [0, 1, 2] [1, 3, 5]) h θ0 = some s0 ∧
+      lmLoop (tapeEval Examples.prog01 [0, 1, 2] [1, 3, 5]) h k s0 = some s ∧
+      θ = (tapeEval Examples.prog01 [0, 1, 2] [1, 3, 5]).vals s.tp ∧
+      (s.stop = true ∨ errA (linJac Examples.cf01 2 [0, 1, 2]) 3 2 θs θ ≤
+        ((max s0.mu 2) * κ / (1 + (max s0.mu 2) * κ)) ^ k * errA (linJac Examples.cf01 2 [0, 1, 2]) 3 2 θs θ0) :=
+  lm_linear_contraction Examples.prog01 [0, 1, 2] [1, 3, 5] rfl (by norm_num) 2 (by norm_num) Examples.cf01
+    (fun x θ hθ => (Examples.prog01_lin x θ hθ).1) (fun x θ hθ => (Examples.prog01_lin x θ hθ).2)
+    (by
+      intro i hi
+      have : i = 0 ∨ i = 1 := by omega
+      rcases this with rfl | rfl
+      · exact ⟨0, by norm_num, by simp [Examples.cf01]⟩
+      · exact ⟨1, by norm_num, by simp [Examples.cf01, nth]⟩)
+    (fun _ => rfl) (fun _ _ => rfl) h hτ θ0 hθ k θ cov κ hκ hκD θs hs hr
+
+end linex
+
 
 end Cv.C10R
